@@ -317,6 +317,8 @@ def r3_failed_file_removed(repo=None):
     return r
 
 
+EXTENT_REASON = ("a failed extent makes the following H5Dwrite on the un-extended dataset fail (selection beyond the extent), and "
+                 "that status is examined on every path")
 ALLOW_DEAD = {
     ("digital_rf_write_rf_data_index", "H5Dset_extent"):
         "a failed extent makes the following hyperslab selection / H5Dwrite on the un-extended dataset fail, and that "
@@ -326,6 +328,29 @@ ALLOW_DEAD = {
 }
 POST_PUBLISH = {"digital_rf_free_hdf5_data_object":
                 "runs after the publish decision; the handles were closed and zeroed by the caller (C02.R2 typestate)"}
+
+
+def _extent_then_tested_write(fn, g, cn, c):
+    """A dataset extension whose own status is not examined is harmless when, on every path from it to the end of the function,
+    the same dataset is written with H5Dwrite and *that* status is examined: writing a selection beyond the extent fails."""
+    if c.callee != "H5Dset_extent" or not c.args:
+        return False
+    dset = c.args[0].path()
+    writes = []
+    for w in fn.calls(("H5Dwrite",)):
+        if w.args and w.args[0].path() == dset:
+            use = clib.status_usage(w)
+            wn = _node_of(g, w)
+            if wn is None:
+                continue
+            ok = use in ("tested", "returned")
+            if use.startswith("assigned:"):
+                ok, _ = clib.var_tested_after(fn, g, wn.id, use.split(":", 1)[1])
+            if ok:
+                writes.append(wn.id)
+    if not writes:
+        return False
+    return g.exit.id not in g.reach([cn.id], avoid=writes)
 
 
 def r4_no_lost_status(repo=None):
@@ -381,6 +406,8 @@ def r4_no_lost_status(repo=None):
                 ok, where = clib.var_tested_after(fn, g, cn.id, var)
                 if ok:
                     r.ok(site, "status stored in `%s` and tested/returned on every path" % var)
+                elif _extent_then_tested_write(fn, g, cn, c):
+                    r.allowed("%s: %s = %s(...) overwritten before test" % (fname, var, c.callee), EXTENT_REASON)
                 elif key in ALLOW_DEAD:
                     r.allowed("%s: %s = %s(...) overwritten before test" % (fname, var, c.callee), ALLOW_DEAD[key])
                 else:
@@ -393,6 +420,8 @@ def r4_no_lost_status(repo=None):
                         x.ast.children and (x.ast.children[0].intval() or 0) != 0 for x in rets):
                     r.ok(site, "best-effort clean-up on a path that already returns an error (every return reachable from "
                                "here is a non-zero constant)")
+                elif _extent_then_tested_write(fn, g, cn, c):
+                    r.allowed("%s: %s(...) result discarded" % (fname, c.callee), EXTENT_REASON)
                 elif key in ALLOW_DEAD:
                     r.allowed("%s: %s(...) result discarded" % (fname, c.callee), ALLOW_DEAD[key])
                 else:
